@@ -12,6 +12,7 @@ pub struct Hist {
     pub w: BufWriter<std::fs::File>,
     pub id: u64,
     pub sum: usize,
+    pub keep_pending: bool,
 }
 
 fn addr_pair(a: u64) -> String {
@@ -20,7 +21,7 @@ fn addr_pair(a: u64) -> String {
 
 impl Hist {
     pub fn new(path: &str, bg: Bg) -> Result<Self> {
-        Ok(Hist { m: Machine::new(bg), w: BufWriter::with_capacity(1 << 20, std::fs::File::create(path)?), id: 0, sum: 0 })
+        Ok(Hist { m: Machine::new(bg), w: BufWriter::with_capacity(1 << 20, std::fs::File::create(path)?), id: 0, sum: 0, keep_pending: false })
     }
     fn readbacks(&self) -> (Vec<u8>, Vec<u8>) {
         let dd = (0..11).map(|i| self.m.cpu.bus.read(0xfee000 + i).unwrap_or(0)).collect();
@@ -70,10 +71,16 @@ impl Hist {
         Ok(())
     }
     pub fn tick(&mut self, n: u8) -> Result<()> {
+        // requests raised by THIS tick = what was appended to the queue; in backlog histories the queue is left
+        // to grow (an interrupt-masked CPU), otherwise it is emptied after every tick
+        let before = self.m.cpu.vh_pending().len();
         let out = self.m.update_modules(n);
         self.m.commit(&out.wr);
-        let req = self.m.cpu.vh_pending();
-        self.m.cpu.vh_clear_pending();
+        let all = self.m.cpu.vh_pending();
+        let req: Vec<u8> = if all.len() >= before { all[before..].to_vec() } else { all.clone() };
+        if !self.keep_pending {
+            self.m.cpu.vh_clear_pending();
+        }
         let tcnt = self.m.cpu.bus.read(0xffff88).unwrap_or(0);
         let tcsr = self.m.cpu.bus.read(0xffff82).unwrap_or(0);
         writeln!(self.w, "{{\"k\":\"tick\",\"id\":{},\"n\":{},\"res\":\"{}\",\"tcnt\":{},\"tcsr\":{},\"req\":{},\"wr\":{}}}",
@@ -294,7 +301,13 @@ pub fn run_bus_history(args: &Args) -> Result<()> {
 // ------------------------------------------------------------------------------------------------
 // C16: replay TLC-generated port histories (and random longer ones) into the real Bus
 // ------------------------------------------------------------------------------------------------
+/// configuration registers of block 1 that are NOT port registers (pull-up control, bus controller, ...): stores
+/// there in the middle of a port history must not change what the ports read or announce
+const OTHER_IO1: [u64; 8] = [0xfee03c, 0xfee03e, 0xfee03f, 0xfee00b, 0xfee012, 0xfee01c, 0xfee040, 0xfee0ff];
 fn apply_port_op(h: &mut Hist, op: &str, port: u8, v: u8, rng: &mut Rng) -> Result<()> {
+    if rng.chance(1, 12) {
+        h.bw(rng.pick(&OTHER_IO1), rng.pick(&[0xffu8, 0x0f, 0xa5, 0x01]))?;
+    }
     // time stamps: non-decreasing, sometimes equal
     let adv = if rng.chance(1, 3) { 0 } else { rng.below(5000) };
     let s = h.sum + adv;
@@ -446,6 +459,21 @@ pub fn run_timer_replay(args: &Args) -> Result<()> {
                         h.tick(*x as u8)?;
                     }
                 }
+            }
+            // one backlog history per thread: compare match every 2 counts on clock/8, all enables, the queue left to
+            // grow to 320 requests - each event raises exactly one request however many are outstanding
+            {
+                h.reset()?;
+                nh += 1;
+                h.keep_pending = true;
+                h.bw(TCORA, 2)?;
+                h.bw(TCORB, 0xf0)?;
+                h.bw(TCR, 0x49)?;
+                for _ in 0..(320 * 16 / 240 + 2) {
+                    h.tick(240)?;
+                }
+                h.keep_pending = false;
+                h.m.cpu.vh_clear_pending();
             }
             for k in 0..(n_random / threads.max(1)) {
                 h.reset()?;
